@@ -4,7 +4,7 @@
 (* machine: every property is an invariant over the history (documents      *)
 (* added) and the accumulated tree after each stage.                        *)
 (***************************************************************************)
-EXTENDS AyBuild, Props_C02, Props_C03, Props_C04, Props_C05, Props_C08, Props_C14, Props_C15, Props_C16
+EXTENDS AyBuild, Props_C01, Props_C02, Props_C03, Props_C04, Props_C05, Props_C08, Props_C14, Props_C15, Props_C16
 
 HistDocs  == [i \in 1..Len(hist) |-> hist[i].sd]
 HistSafes == [i \in 1..Len(hist) |-> hist[i].safe]
@@ -16,6 +16,9 @@ CompactOut(r) == IF IsErr(r) THEN [e |-> r.err] ELSE CompactN(r)
 Check(name, ok) ==
     ok \/ (PrintT(ToJson([cex |-> name, docs |-> HistDocs,
                           x |-> [j \in 1..Len(accs) |-> CompactOut(accs[j])]])) /\ FALSE)
+
+Inv_C01 == Check("Inv_C01", C01_Holds(HistDocs, accs, Plain("none", NoVal, <<>>))
+                              /\ (Len(accs) = 1 /\ ~IsErr(accs[1]) /\ C01_Vocabulary(HistDocs[1]) => C01_FilledOnce(HistDocs[1], accs[1])))
 
 Inv_C02          == Check("Inv_C02", C02_Holds(HistDocs, accs))
 Inv_C02_NoKeyLost == Check("Inv_C02_NoKeyLost", C02_NoKeyLost(HistDocs, accs))
@@ -51,6 +54,7 @@ C16_Witness == phase = "constructed" /\ C16_Judged(HistDocs, accs)
 Emit == Terminal => PrintT(ToJson([h |-> [i \in 1..Len(hist) |-> hist[i].i],
                                    s |-> HistSafes,
                                    x |-> [j \in 1..Len(accs) |-> CompactOut(accs[j])],
+                                   v |-> IF IsErr(acc) \/ acc.k = "nothing" THEN <<>> ELSE Compact(DataOf(acc)),
                                    c |-> [status |-> built.status,
                                           paths |-> [i \in 1..Len(built.paths) |-> [j \in 1..Len(built.paths[i]) |-> KeyStr(built.paths[i][j])]]]]))
 
